@@ -1,5 +1,14 @@
-"""C20 — behaviour is independent of packaging, language standard and compiler (differential)."""
-import hashlib
+"""C20 — behaviour is independent of packaging, language standard and compiler (differential).
+
+ (a) single-file packaging: generated header for enumerated selections (<=1 header, full set, --all-* flags, arithmetic-progression
+     subsets in three insertion orders) x {io,noio}: self-contained, includable twice, linkable from two TUs, output equal to the same
+     two-TU program built against the multi-header tree; the full selection under all six configurations; the whole API-surface
+     program of (c) built against the generated full header as well.
+ (b) every public header compiled alone (twice), unit/constant headers with one instantiating use; every forward declaration in a
+     *fwd.hh (templates included) followed by its definition and a completeness check.
+ (c) API-surface family x 11 reps: accept/reject vector, run-time output over a value menu, constexpr twins, -O2 build, link of
+     odr-uses of static data members, C++20-only operator<=> statements: identical across g++/clang++ x C++14/17/20.
+"""
 import itertools
 import os
 import re
@@ -22,7 +31,7 @@ def msf(args, out):
     return True, ""
 
 
-def cc(cfg, args, timeout=600):
+def cc(cfg, args, timeout=900):
     rc, o, e = core.sh([cfg.cxx, "-std=" + cfg.std, "-w"] + args, timeout=timeout)
     return rc, (e or o)
 
@@ -30,18 +39,24 @@ def cc(cfg, args, timeout=600):
 UNIT_SNIPPET = '  { auto q = au::%s(3); std::printf("%s %%s %%d\\n", au::unit_label(q.unit), static_cast<int>(q.in(q.unit))); }'
 
 
+def maker_of(stem):
+    return model.LIB_BY_STEM[stem].maker.replace("au::", "")
+
+
 def surface_program(header, units, consts, io):
-    """A program that only uses what the selection contains; prints plain text."""
-    L = ['#include <cstdio>', '#include <cstdint>', '#include "%s"' % header if header else "", 'int main() {',
+    """A program that only uses what the selection contains; prints plain text.  Second TU: other_tu.cc."""
+    L = ['#include <cstdio>', '#include <cstdint>', '#include "%s"' % header if header else "",
+         'const char *other_tu_label(); int other_tu();', 'int main() {',
          '  std::printf("%s\\n", au::unit_label(au::UnitProductT<>{}));',
          '  std::printf("%d\\n", (int)au::get_value<int>(au::mag<12>() * au::mag<5>()));',
          '  { au::Quantity<au::UnitProductT<>, int> q = au::ZERO; std::printf("%d\\n", q.in(au::UnitProductT<>{})); }',
          '  std::printf("%d %d\\n", (int)au::detail::is_prime(2147483647u), (int)au::detail::find_prime_factor(1000001u));',
-         '  { std::chrono::milliseconds d{1500}; std::printf("%lld\\n", (long long)au::as_quantity(d).in(au::Milli<au::Seconds>{})); }']
+         '  { std::chrono::milliseconds d{1500}; std::printf("%lld\\n", (long long)au::as_quantity(d).in(au::Milli<au::Seconds>{})); }',
+         '  std::printf("other TU: %s %d\\n", other_tu_label(), other_tu());']
     for u in units:
         mu = model.LIB_BY_STEM[u]
-        L.append(UNIT_SNIPPET % (mu.maker.replace("au::", ""), u))
-        L.append('  std::printf("%%s %%d\\n", au::unit_label(au::kilo(au::%s)), (int)sizeof(au::QuantityD<%s>));' % (mu.maker.replace("au::", ""), mu.cpp))
+        L.append(UNIT_SNIPPET % (maker_of(u), u))
+        L.append('  std::printf("%%s %%d\\n", au::unit_label(au::kilo(au::%s)), (int)sizeof(au::QuantityD<%s>));' % (maker_of(u), mu.cpp))
     for c in consts:
         L.append('  std::printf("%s %%s\\n", au::unit_label(au::%s));' % (c, c.upper()))
     if io:
@@ -49,9 +64,17 @@ def surface_program(header, units, consts, io):
         L.append('  { std::ostringstream o; o << au::make_quantity<au::UnitProductT<>>(int8_t{65}) << "|" << au::ZERO << "|" << (au::mag<3>() / au::mag<7>()); std::printf("%s\\n", o.str().c_str()); }')
         for u in units[:2]:
             mu = model.LIB_BY_STEM[u]
-            L.append('  { std::ostringstream o; o << au::%s(2.5) << "|" << au::make_quantity_point<%s>(7); std::printf("%%s\\n", o.str().c_str()); }' % (mu.maker.replace("au::", ""), mu.cpp))
+            L.append('  { std::ostringstream o; o << au::%s(2.5) << "|" << au::make_quantity_point<%s>(7); std::printf("%%s\\n", o.str().c_str()); }' % (maker_of(u), mu.cpp))
     L.append('  return 0; }')
     return "\n".join(L) + "\n"
+
+
+def other_tu(header, units, consts):
+    """Second translation unit: odr-uses the first selected unit's / constant's label too (same entities as in main's TU)."""
+    lab = "au::unit_label(au::%s(1).unit)" % maker_of(units[0]) if units else ("au::unit_label(au::%s)" % consts[0].upper() if consts else "au::unit_label(au::UnitProductT<>{})")
+    return ('%s\nconst char *other_tu_label() { return %s; }\n'
+            'int other_tu() { return (int)au::get_value<int>(au::mag<6>()) + (int)sizeof(au::unit_label(au::UnitProductT<>{})) + (int)sizeof(%s); }\n'
+            % (('#include "%s"' % header) if header else "", lab, lab))
 
 
 def multi_includes(units, consts, io):
@@ -61,11 +84,12 @@ def multi_includes(units, consts, io):
     return "\n".join(inc) + "\n"
 
 
-def check_selection(run, cfg, sel_id, units, consts, io, deep):
+def check_selection(run, cfg, sel_id, units, consts, io, deep, raw_args=None):
     """Returns list of (kind, detail) problems for one header selection."""
     wd = os.path.join(run.wd, "sf", sel_id)
     hdr = os.path.join(wd, "inc", "au.hh")
-    args = (["--units"] + units if units else []) + (["--constants"] + consts if consts else []) + ([] if io else ["--noio"])
+    args = raw_args if raw_args is not None else ((["--units"] + units if units else []) + (["--constants"] + consts if consts else []))
+    args = list(args) + ([] if io else ["--noio"])
     ok, err = msf(args, hdr)
     if not ok:
         return [("generator-failed", err)]
@@ -79,22 +103,21 @@ def check_selection(run, cfg, sel_id, units, consts, io, deep):
         return [("not-self-contained", core._first_error(e))]
     if not deep:
         return probs
-    # 2. behaviour equal to the multi-header tree, and linkable from two TUs
-    prog = surface_program("au.hh", units, consts, io)
-    a = os.path.join(wd, "a.cc")
-    b = os.path.join(wd, "b.cc")
-    open(a, "w").write(prog)
-    open(b, "w").write('#include "au.hh"\nint other_tu() { return (int)au::get_value<int>(au::mag<6>()) + (int)sizeof(au::unit_label(au::UnitProductT<>{})); }\n')
+    # 2. behaviour equal to the multi-header tree, both linked from two TUs that odr-use the same labels
+    a, b = os.path.join(wd, "a.cc"), os.path.join(wd, "b.cc")
+    open(a, "w").write(surface_program("au.hh", units, consts, io))
+    open(b, "w").write(other_tu("au.hh", units, consts))
     exe1 = os.path.join(wd, "single")
     rc, e = cc(cfg, ["-I" + inc, a, b, "-o", exe1])
     if rc != 0:
-        return [("single-file-program-rejected", core._first_error(e))]
-    m = os.path.join(wd, "m.cc")
+        return [("single-file-program-rejected", core._first_error(e) or e[-300:])]
+    m, mb = os.path.join(wd, "m.cc"), os.path.join(wd, "mb.cc")
     open(m, "w").write(multi_includes(units, consts, io) + surface_program("", units, consts, io))
+    open(mb, "w").write(multi_includes(units, consts, io) + other_tu("", units, consts))
     exe2 = os.path.join(wd, "multi")
-    rc, e = cc(cfg, ["-I" + core.AU_INC, m, "-o", exe2])
+    rc, e = cc(cfg, ["-I" + core.AU_INC, m, mb, "-o", exe2])
     if rc != 0:
-        return [("multi-header-program-rejected", core._first_error(e))]
+        return [("multi-header-program-rejected", core._first_error(e) or e[-300:])]
     o1 = core.sh([exe1], timeout=60)
     o2 = core.sh([exe2], timeout=60)
     if o1[0] != 0 or o2[0] != 0 or o1[1] != o2[1]:
@@ -107,6 +130,22 @@ def check_selection(run, cfg, sel_id, units, consts, io, deep):
     return probs
 
 
+def structured_subsets(units_h, consts_h, quick):
+    """Enumerated stand-in for 'random subsets': arithmetic progressions (stride, offset) over the combined header list, sizes 4..33,
+    each handed to the generator in sorted, reversed and rotated order (its topological sort starts from the insertion order)."""
+    pool = ["U:" + u for u in units_h] + ["C:" + c for c in consts_h]
+    out = []
+    for stride in ((3, 7, 13) if quick else (2, 3, 5, 7, 11, 13, 17)):
+        for off in range(1 if quick else min(stride, 3)):
+            sub = pool[off::stride]
+            for oname, o in (("fwd", sub), ("rev", sub[::-1]), ("rot", sub[len(sub) // 2:] + sub[:len(sub) // 2])):
+                if quick and oname == "rot":
+                    continue
+                out.append(("ap%d+%d-%s" % (stride, off, oname), [x[2:] for x in o if x[0] == "U"], [x[2:] for x in o if x[0] == "C"]))
+    return out
+
+
+# ------------------------------------------------------------------------------------------ API surface
 SURFACE_STMTS = [
     ("add", "P(a + b);"), ("sub", "P(a - b);"), ("neg", "P(-a);"), ("pos", "P(+a);"), ("mul-s", "P(a * R(2));"), ("s-mul", "P(R(2) * a);"),
     ("div-s", "P(a / R(2));"), ("mul-q", "P(a * t);"), ("div-q-same", "PR(a / b);"), ("mod", "P(a % b);"), ("mod-mixed", "P(a % f);"),
@@ -120,9 +159,8 @@ SURFACE_STMTS = [
     ("ovf", "PB(au::will_conversion_overflow(a, au::nano(au::meters)));"), ("inverse", "P(au::inverse_as(au::micro(au::seconds), au::hertz(R(4))));"),
     ("pt-sub", "P(au::celsius_pt(R(20)) - au::celsius_pt(R(5)));"), ("pt-cmp", "PB(au::celsius_pt(R(20)) < au::kelvins_pt(R(300)));"),
     ("pt-as", "P(au::celsius_pt(R(20)).coerce_as(au::kelvins_pt) - au::kelvins_pt(R(0)));"), ("hypot", "P(au::hypot(a, b));"),
-    ("stream", "{ std::ostringstream o; o << a; std::printf(\"%s\\n\", o.str().c_str()); }"),
+    ("stream", "{ std::ostringstream o; o << a; std::printf(\"%s %s\\n\", TAG, o.str().c_str()); }"),
     ("chrono", "{ std::chrono::duration<R> d = au::seconds(R(5)); PR(d.count()); }"), ("const", "P(au::SPEED_OF_LIGHT.template as<R>(au::meters / au::second));"),
-    ("spaceship", "PB((a <=> b) > 0);"),
     # mixed std::chrono / Quantity operators, foreign type on either side (C++20 rewrites == / != candidates, earlier standards do not)
     ("chrono-ne-left", "PB(std::chrono::milliseconds(1500) != au::seconds(R(1)));"), ("chrono-ne-right", "PB(au::seconds(R(1)) != std::chrono::milliseconds(1500));"),
     ("chrono-eq-left", "PB(std::chrono::milliseconds(1000) == au::seconds(R(1)));"), ("chrono-eq-right", "PB(au::seconds(R(1)) == std::chrono::milliseconds(1000));"),
@@ -140,9 +178,72 @@ SURFACE_STMTS = [
     ("label-common-point", "PL(au::CommonPointUnitT<au::Celsius, au::Fahrenheit>{});"), ("label-unitless", "PL(au::UnitProductT<>{});"),
     ("label-unlabeled", "PL(c20::Nameless{});"), ("label-maglabel", "std::printf(\"%s %s %d\\n\", TAG, au::mag_label(au::mag<22>() / au::mag<7>()), (int)sizeof(au::mag_label(au::mag<22>() / au::mag<7>())));"),
     ("label-stream-inverse", "{ std::ostringstream o; o << (R(6) / (a * t)); std::printf(\"%s %s\\n\", TAG, o.str().c_str()); }"),
+    # further API areas: unit symbols, constants, points across units / reversed operands, ZERO on the left, NTTP, common_type,
+    # integer division, rounding family, cmath family, data_in, raw numbers, containers (C++20 compares them through operator<=>)
+    ("sym-mul", "P(R(3) * au::symbols::m);"), ("sym-div", "P(R(6) / au::symbols::s);"), ("const-mul", "P(au::SPEED_OF_LIGHT * a);"),
+    ("const-div", "P(a / au::SPEED_OF_LIGHT);"), ("make_constant", "constexpr auto k = au::make_constant(au::meters / au::second); P(k * t);"),
+    ("const-coerce", "P(au::SPEED_OF_LIGHT.template coerce_as<R>(au::meters / au::second));"),
+    ("pt-eq-mixed", "PB(au::celsius_pt(R(20)) == au::kelvins_pt(R(293)));"), ("pt-ne-mixed-rev", "PB(au::kelvins_pt(R(293)) != au::celsius_pt(R(20)));"),
+    ("pt-ge-mixed-rev", "PB(au::kelvins_pt(R(293)) >= au::celsius_pt(R(20)));"), ("pt-add", "P((au::celsius_pt(R(20)) + au::kelvins(R(5))) - au::celsius_pt(R(0)));"),
+    ("zero-eq-rev", "PB(au::ZERO == a);"), ("zero-lt-rev", "PB(au::ZERO < a);"), ("zero-ne-rev", "PB(au::ZERO != a);"),
+    ("nttp", "constexpr typename decltype(a)::NTTP n = au::meters(R(5)); P(from_nttp(n));"),
+    ("common_type", "typename std::common_type<decltype(a), decltype(f)>::type c = a; P(c);"),
+    ("unblock_int_div", "P(a / au::unblock_int_div(t));"), ("int-div-raw", "PR((a * t) / (b * t));"),
+    ("floor_as", "P(au::floor_as(au::feet, a));"), ("ceil_in", "PR(au::ceil_in(au::feet, a));"), ("round_in", "PR(au::round_in(au::feet, a));"),
+    ("abs", "P(au::abs(a - b - b - b));"), ("fmod", "P(au::fmod(a, b));"), ("remainder", "P(au::remainder(a, b));"), ("clamp", "P(au::clamp(a, b, f));"),
+    ("copysign", "P(au::copysign(a, b - a));"), ("isnan", "PB(au::isnan(a));"),
+    ("data_in", "auto c = a; c.data_in(au::meters) += R(1); P(c);"), ("as_raw_number", "PR(au::as_raw_number(a / b));"),
+    ("numlim-max", "P(std::numeric_limits<decltype(a)>::max());"), ("numlim-lowest", "P(std::numeric_limits<decltype(a)>::lowest());"),
+    ("map-order", "{ std::map<decltype(a), int> mm; mm[a] = 1; mm[b] = 2; mm[a + b] = 3; PR(mm.begin()->second); }"),
+    ("pair-lt", "PB(std::make_pair(a, 1) < std::make_pair(b, 2));"), ("pair-ge", "PB(std::make_pair(a, 1) >= std::make_pair(a, 1));"),
+    ("tuple-lt", "PB(std::make_tuple(b, a) < std::make_tuple(b, b));"), ("vector-lt", "PB(std::vector<decltype(a)>{b, a} < std::vector<decltype(a)>{b, b});"),
+    ("vector-eq", "PB(std::vector<decltype(a)>{b, a} == std::vector<decltype(a)>{b, a});"),
+    ("pt-pair-lt", "PB(std::make_pair(au::meters_pt(R(3)), 1) < std::make_pair(au::meters_pt(R(3)), 2));"),
+    # heavy constant evaluation (compilers have different default budgets: a budget diagnostic is a counted don't-care)
+    ("heavy-mag", "constexpr auto m = au::mag<18446744073709551557ULL>(); (void)m; PB(true);"),
+    ("heavy-unit", "constexpr auto u = au::Meters{} * au::mag<1000000007>() / au::mag<998244353>(); PL(u);"),
+    # C++20 only: operator<=> against the relational operators (printed as lt eq gt of each)
+    ("spaceship", "PS(a, b);"), ("spaceship-rev", "PS(b, a);"), ("spaceship-eq", "PS(a, au::meters(R(7)));"), ("spaceship-mixed-unit", "PS(a, f);"),
+    ("spaceship-mixed-rep", "PS(a, au::meters(7.5));"), ("spaceship-mixed-both", "PS(au::feet(23.5), a);"),
+    ("spaceship-pt", "PS(au::celsius_pt(R(20)), au::celsius_pt(R(5)));"), ("spaceship-pt-mixed", "PS(au::celsius_pt(R(20)), au::kelvins_pt(R(300)));"),
 ]
+ONLY20 = lambda name: name.startswith("spaceship")
+# statements whose value does not depend on <cmath> / streams and that Au declares constexpr: evaluated in a constant expression too
+CONSTEXPR_OK = {"add", "sub", "neg", "pos", "mul-s", "s-mul", "div-s", "mul-q", "div-q-same", "mod", "mod-mixed", "eq", "lt", "ge", "lt-mixed", "add-mixed",
+                "as-cm", "as-km", "coerce-km", "as-ft", "as-double-ft", "rep_cast", "zero-cmp", "int_pow", "min", "max-mixed", "lossy", "trunc", "ovf",
+                "inverse", "pt-sub", "pt-cmp", "pt-as", "const", "chrono-ne-left", "chrono-ne-right", "chrono-eq-left", "chrono-eq-right", "chrono-lt-left",
+                "chrono-lt-right", "chrono-le-left", "chrono-ge-right", "chrono-add-left", "chrono-sub-right", "sym-mul", "sym-div", "const-mul", "const-div",
+                "const-coerce", "pt-eq-mixed", "pt-ne-mixed-rev", "pt-ge-mixed-rev", "pt-add", "zero-eq-rev", "zero-lt-rev", "zero-ne-rev",
+                "unblock_int_div", "int-div-raw", "clamp", "as_raw_number", "numlim-max", "numlim-lowest"}
+# odr-uses of static data members of the public types: must link alike under every standard (C++14: needs an out-of-class definition)
+ODR_STMTS = [
+    ("odr-unit", "const auto &u = a.unit; PL(u);"), ("odr-maker-unit", "const auto &u = au::meters.unit; PL(u);"),
+    ("odr-pt-unit", "const auto p = au::meters_pt(R(1)); const auto &u = p.unit; PL(u);"), ("odr-ptmaker-unit", "const auto &u = au::meters_pt.unit; PL(u);"),
+    ("odr-numlim-digits", "const int &d = std::numeric_limits<decltype(a)>::digits; PR(d);"),
+    ("odr-numlim-bools", "const bool *p[] = {&std::numeric_limits<decltype(a)>::is_specialized, &std::numeric_limits<decltype(a)>::is_integer, &std::numeric_limits<decltype(a)>::is_signed, "
+     "&std::numeric_limits<decltype(a)>::is_exact, &std::numeric_limits<decltype(a)>::has_infinity, &std::numeric_limits<decltype(a)>::has_quiet_NaN, "
+     "&std::numeric_limits<decltype(a)>::has_signaling_NaN, &std::numeric_limits<decltype(a)>::has_denorm_loss, &std::numeric_limits<decltype(a)>::is_iec559, "
+     "&std::numeric_limits<decltype(a)>::is_bounded, &std::numeric_limits<decltype(a)>::is_modulo, &std::numeric_limits<decltype(a)>::traps, "
+     "&std::numeric_limits<decltype(a)>::tinyness_before}; int s = 0; for (const bool *x : p) s = 2 * s + *x; PR(s);"),
+    ("odr-numlim-ints", "const int *p[] = {&std::numeric_limits<decltype(a)>::digits10, &std::numeric_limits<decltype(a)>::max_digits10, &std::numeric_limits<decltype(a)>::radix, "
+     "&std::numeric_limits<decltype(a)>::min_exponent, &std::numeric_limits<decltype(a)>::min_exponent10, &std::numeric_limits<decltype(a)>::max_exponent, "
+     "&std::numeric_limits<decltype(a)>::max_exponent10}; long s = 0; for (const int *x : p) s = 31 * s + *x; PR(s);"),
+    ("odr-numlim-enums", "const auto &d = std::numeric_limits<decltype(a)>::has_denorm; const std::float_round_style &r = std::numeric_limits<decltype(a)>::round_style; PR((int)d * 10 + (int)r);"),
+    ("odr-unit-label-member", "const auto &l = au::Meters::label; std::printf(\"%s %s\\n\", TAG, l);"),
+    ("odr-prefix-label-member", "const auto &l = au::Kilo<au::Meters>::label; std::printf(\"%s %s %d\\n\", TAG, l.c_str(), (int)l.size());"),
+    ("odr-zero", "const au::Zero &z = au::ZERO; P(a + z);"), ("odr-mag-one", "const auto &o = au::ONE; PL(au::Meters{} * o);"),
+    ("odr-base-dim", "const std::int64_t &i = au::base_dim::Length::base_dim_index; PR(i);"),
+    ("odr-constant", "const auto &c = au::SPEED_OF_LIGHT; P(c.template as<double>(au::meters / au::second));"),
+    ("odr-symbol", "const auto &s = au::symbols::m; P(R(3) * s);"),
+]
+ODR_REPS = ["int32_t", "double"]
+CX_REPS = ["int8_t", "uint16_t", "int64_t", "double"]
 
 SURFACE_PRE = r'''
+#include <map>
+#include <tuple>
+#include <utility>
+#include <vector>
 using au::min; using au::max;
 namespace c20 {
 struct Nameless : au::UnitImpl<au::Length, decltype(au::mag<13>())> {};
@@ -158,55 +259,361 @@ template <typename U, typename R> void pq(const char *tag, au::Quantity<U, R> q)
 #define P(x) c20::pq(TAG, (x))
 #define PR(x) c20::praw(TAG, (x))
 #define PB(x) std::printf("%s bool %d\n", TAG, (int)(x))
+#if defined(__cpp_impl_three_way_comparison)
+#define PS(x, y) { const auto s_ = ((x) <=> (y)); std::printf("%s spaceship %d%d%d relational %d%d%d\n", TAG, (int)(s_ < 0), (int)(s_ == 0), (int)(s_ > 0), (int)((x) < (y)), (int)((x) == (y)), (int)((x) > (y))); }
+#endif
 '''
 
+# value menu (a, b, f, t): benign, negative (signed / floating reps only), zero, larger, and fractional / signed zero (floating reps only).
+# No value makes the *raw* C++ arithmetic of a statement undefined (that would be the program's fault, not packaging/standard/compiler).
+VALUES = [("V0", ("7", "3", "2", "2"), "all"), ("V1", ("-7", "3", "-2", "2"), "signed"), ("V2", ("0", "3", "2", "2"), "all"),
+          ("V3", ("100", "11", "50", "1"), "all"), ("V4", ("-0.0", "0.5", "1e-3", "0.25"), "float")]
 
-def stmt_body(rep, name, stmt):
-    return ('using R = %s; const char *TAG = "%s/%s"; auto a = au::meters(R(7)); auto b = au::meters(R(3)); auto f = au::feet(R(2)); auto t = au::seconds(R(2)); '
-            '(void)a; (void)b; (void)f; (void)t; (void)TAG; %s' % (rep, name, rep, stmt))
+
+def vals_apply(vname, rep):
+    kind = [k for n, v, k in VALUES if n == vname][0]
+    if kind == "signed":
+        return core.is_signed(rep) or rep in core.F3
+    if kind == "float":
+        return rep in core.F3
+    return True
+
+
+def stmt_body(rep, name, stmt, vname="V0", cx=False):
+    a, b, f, t = [v for n, v, k in VALUES if n == vname][0]
+    tag = "%s/%s/%s%s" % (name, rep, vname, "/cx" if cx else "")
+    head = ('using R = %s; const char *TAG = "%s"; %s auto a = au::meters(R(%s)); %s auto b = au::meters(R(%s)); %s auto f = au::feet(R(%s)); '
+            '%s auto t = au::seconds(R(%s)); (void)a; (void)b; (void)f; (void)t; (void)TAG; ' % (
+                rep, tag, *[x for v in (a, b, f, t) for x in ("constexpr" if cx else "", v)]))
+    if cx:
+        m = re.match(r"^(P|PB|PR)\((.*)\);$", stmt)
+        return head + "constexpr auto r_ = (%s); %s(r_);" % (m.group(2), m.group(1))
+    return head + stmt
+
+
+_LD_FN = re.compile(r"in function `(\w+)\(\)'")
+_LD_UND = re.compile(r"undefined reference to `([^']+)'")
+
+
+def build_funcs(cfg, wd, stem, pre, funcs, flags=(), cc_args=None):
+    """Build `funcs` (list of (fname, body)) as one program and run it.  Returns (output | None, {fname: [undefined symbols]}, diag).
+    When the link fails with undefined references attributed to some functions, the program is rebuilt without them."""
+    os.makedirs(wd, exist_ok=True)
+    src, exe = os.path.join(wd, stem + ".cc"), os.path.join(wd, stem)
+    bad = {}
+    for attempt in range(2):
+        use = [(n, b) for n, b in funcs if n not in bad]
+        lines = [pre] + ["static void %s() { %s }" % (n, b) for n, b in use] + ["int main() {"] + ["  %s();" % n for n, _ in use] + ["  return 0; }"]
+        open(src, "w").write("\n".join(lines) + "\n")
+        if cc_args is None:
+            rc, err = core.build_exe(cfg, src, exe, list(flags))
+        else:
+            rc, err = cc(cfg, list(flags) + cc_args + [src, "-o", exe])
+        if rc == 0:
+            rc, o, e = core.sh([exe], timeout=300)
+            try:
+                os.remove(exe)
+            except OSError:
+                pass
+            if rc != 0:
+                raise core.InfraError("surface program %s failed at run time under %s (rc=%d): %s" % (stem, cfg, rc, e[-500:]))
+            return o, bad, ""
+        if attempt == 0 and "undefined reference" in err:
+            cur = None
+            for line in err.split("\n"):
+                m = _LD_FN.search(line)
+                if m:
+                    cur = m.group(1)
+                u = _LD_UND.search(line)
+                if u and cur:
+                    bad.setdefault(cur, [])
+                    if u.group(1) not in bad[cur]:
+                        bad[cur].append(u.group(1))
+            if bad and all(n in dict(funcs) for n in bad):
+                continue
+            bad = {}
+        return None, bad, err
+    return None, bad, err
+
+
+def norm_sym(s):
+    return re.sub(r"\s+", " ", s)[:100]
+
+
+_BUDGET = re.compile(r"constexpr[^\n]*(limit|exceed|maximum|budget)|-fconstexpr-(ops|steps|loop|depth|cache)", re.I)
 
 
 def check(run):
     tier = run.tier
+    quick = tier == "quick"
     units_h, consts_h = core.lib_headers()
     missing = [u for u in units_h if u not in model.LIB_BY_STEM]
     if missing:
         raise core.InfraError("unit headers without model entry: %s" % missing)
     evals = 0
-    nprob = 0
-    # ---------------- (a) single-file packaging
-    sels = [("empty", [], [])] + [("u-" + u, [u], []) for u in units_h] + [("c-" + c, [], [c]) for c in consts_h] + [("all", list(units_h), list(consts_h))]
-    deep_ids = {"empty", "all"} | {"u-" + u for u in units_h[:: (4 if tier == "quick" else 1)]} | {"c-" + c for c in consts_h[:: (3 if tier == "quick" else 1)]}
-    jobs = []
-    for sid, us, cs in sels:
-        for io in (True, False):
-            jobs.append((core.GXX14, "%s-%s" % (sid, "io" if io else "noio"), us, cs, io, sid in deep_ids))
-    jobs.append((core.CLANG20, "all-io-clang20", list(units_h), list(consts_h), True, True))
-    jobs.append((core.CLANG14, "empty-noio-clang14", [], [], False, True))
-    if tier == "thorough":
-        for u1, u2 in itertools.combinations(units_h + ["C:" + c for c in consts_h], 2):
-            us = [x for x in (u1, u2) if not x.startswith("C:")]
-            cs = [x[2:] for x in (u1, u2) if x.startswith("C:")]
-            jobs.append((core.GXX14, "p-%s-%s" % (u1.replace(":", ""), u2.replace(":", "")), us, cs, hash((u1, u2)) % 2 == 0, False))
-        for k, u in enumerate(units_h):
-            jobs.append((core.GXX14, "allbut-" + u, [x for x in units_h if x != u], list(consts_h), True, k % 6 == 0))
-    done = 0
+    info = {}
+    import resource
+    phase = {}
 
-    def do(job):
-        if run.time_left() < 300:
-            return job, None
-        return job, check_selection(run, *job[0:1], job[1], job[2], job[3], job[4], job[5])
-    for job, probs in core.pmap(do, jobs):
-        if probs is None:
+    def mark(name):
+        ru = resource.getrusage(resource.RUSAGE_CHILDREN)
+        cpu = ru.ru_utime + ru.ru_stime
+        phase[name] = {"wall_s": round(run.elapsed() - sum(p["wall_s"] for p in phase.values()), 1),
+                       "cpu_s": round(cpu - sum(p["cpu_s"] for p in phase.values()), 1)}
+    # ---------------- (c) cross-configuration differential of an API-surface family
+    reps = R11
+    probes, twins = [], []
+    for name, stmt in SURFACE_STMTS:
+        for rep in reps:
+            probes.append(core.Probe((name, rep), stmt_body(rep, name, stmt), "accept", {"dedup": None}))
+            if name in CONSTEXPR_OK and rep in CX_REPS:
+                twins.append(core.Probe((name + "/cx", rep), stmt_body(rep, name, stmt, cx=True), "accept", {"dedup": None}))
+    pre = '#include <sstream>\n' + SURFACE_PRE
+    verdicts, diags = {}, {}
+    all_cfgs = core.CFG6
+    core.warm_pch(all_cfgs)
+
+    def guess(cfg, pl, tag):
+        """Cheap first guess of each probe's verdict (one batch per statement; lines named in diagnostics are the rejected ones).
+        Only used as the *expectation* handed to run_probes, which then decides every verdict soundly."""
+        wd = os.path.join(run.wd, "guess_" + cfg.name)
+        os.makedirs(wd, exist_ok=True)
+        by_stmt = {}
+        for p in pl:
+            by_stmt.setdefault(p.pid[0], []).append(p)
+
+        def one(item):
+            k, (name, lst) = item
+            src = os.path.join(wd, "%s_%d.cc" % (tag, k))
+            first = core._emit_batch(src, lst, pre)
+            rc, err = core.syntax_check(cfg, src)
+            fl = core._flagged_lines(err, src) if rc != 0 else set()
+            return [(p, "reject" if (first + i) in fl else "accept") for i, p in enumerate(lst)]
+        out = {}
+        for lst in core.pmap(one, list(enumerate(sorted(by_stmt.items())))):
+            for p, v in lst:
+                out[p.pid] = v
+        return out
+
+    def decide(cfg, pl, expect):
+        ps = [core.Probe(p.pid, p.code, expect.get(p.pid, "accept"), {"dedup": None}) for p in pl]
+        res, _ = core.run_probes(cfg, ps, os.path.join(run.wd, "surf_" + cfg.name), "c20s", pre, batch=24)
+        return res
+    every = probes + twins
+    pl17 = [p for p in every if not ONLY20(p.pid[0])]
+    pl20 = [p for p in every if ONLY20(p.pid[0])]
+    # g++/c++14 (and g++/c++20 for the C++20-only statements) first; its verdicts are the expectations (batching hints) elsewhere
+    g = guess(core.GXX14, pl17, "g14")
+    g.update(guess(core.GXX20, pl20, "g20"))
+    first = {core.GXX14.name: decide(core.GXX14, pl17, g)}
+    exp = {pid: v[0] for pid, v in first[core.GXX14.name].items()}
+    g.update(exp)
+    r20 = decide(core.GXX20, every, g)
+    exp.update({p.pid: r20[p.pid][0] for p in pl20})
+    first[core.GXX20.name] = r20
+
+    def probe_cfg(cfg):
+        pl = every if cfg.std == "c++20" else pl17
+        return cfg, pl, first.get(cfg.name) or decide(cfg, pl, exp)
+    for cfg, pl, res in core.pmap(probe_cfg, all_cfgs, workers=4):
+        verdicts[cfg.name] = {p.pid: res[p.pid][0] for p in pl}
+        diags[cfg.name] = {p.pid: res[p.pid][1] for p in pl}
+        evals += len(pl)
+    info["probe_batches"], info["probe_singles"] = core.STATS["batches"], core.STATS["singles"]
+    common, common20, common_cx = [], [], []
+    n_acc = n_rej = n_budget = n_cx_acc = n_cx_rej = 0
+    for p in probes + twins:
+        vs = {c.name: verdicts[c.name].get(p.pid) for c in all_cfgs if p.pid in verdicts[c.name]}
+        is_cx = p.pid[0].endswith("/cx")
+        if len(set(vs.values())) > 1:
+            rej = [c for c, v in vs.items() if v != "accept"]
+            for c in rej:   # verdicts taken from a reject batch carry no diagnostic: fetch it
+                if not diags[c].get(p.pid):
+                    cf = [x for x in all_cfgs if x.name == c][0]
+                    r1, _ = core.run_probes(cf, [core.Probe(p.pid, p.code, "accept")], os.path.join(run.wd, "surf_" + c), "c20d", pre)
+                    diags[c][p.pid] = r1[p.pid][1]
+            if all(_BUDGET.search(diags[c].get(p.pid) or "") for c in rej):
+                n_budget += 1   # constant-evaluation budget of one compiler: allowed diagnostic, counted
+                continue
+            key = "C20:accept-differs:%s:%s" % p.pid
+            run.violation(key, "statement `%s` with rep %s is accepted/rejected differently: %s (%s)" % (
+                p.pid[0], p.pid[1], vs, "; ".join("%s: %s" % (c, (diags[c].get(p.pid) or "")[:160]) for c in rej[:2])),
+                run.write_replay(key, {"kind": "program", "code": p.code, "verdicts": vs}))
+        elif list(vs.values())[0] == "accept":
+            if is_cx:
+                n_cx_acc += 1
+                common_cx.append(p)
+            else:
+                n_acc += 1
+                (common20 if ONLY20(p.pid[0]) else common).append(p)
+        elif is_cx:
+            n_cx_rej += 1
+        else:
+            n_rej += 1
+    stmt_of = dict(SURFACE_STMTS)
+    mark("c_accept_probes")
+    # ---- programs: one per value set (V0 also carries the constexpr twins), built per configuration
+    vsets = [v[0] for v in VALUES]
+
+    def funcs_for(vname, with_cx, plist):
+        fs = []
+        for p in plist:
+            name, rep = p.pid
+            if vals_apply(vname, rep):
+                fs.append(("s%d" % len(fs), stmt_body(rep, name, stmt_of[name], vname), (name, rep, vname)))
+        if with_cx:
+            for p in common_cx:
+                name, rep = p.pid[0][:-3], p.pid[1]
+                fs.append(("s%d" % len(fs), stmt_body(rep, name, stmt_of[name], vname, cx=True), (name + "/cx", rep, vname)))
+        return fs
+    progs = {v: funcs_for(v, v == "V0", common) for v in vsets}
+    prog20 = [("s%d" % i, b, m) for i, (n, b, m) in enumerate(f for v in ("V0", "V1") for f in funcs_for(v, False, common20))]
+    bjobs = [(cfg, v, ()) for cfg in all_cfgs for v in vsets]
+    bjobs += [(cfg, "V0", ("-O2",)) for cfg in (core.CORNERS if quick else all_cfgs)]
+    if not quick:
+        bjobs += [(cfg, "V3", ("-O2",)) for cfg in core.CORNERS]
+    bjobs += [(cfg, "S20", ()) for cfg in all_cfgs if cfg.std == "c++20"]
+    # the surface program against the generated single-file header (no other Au file on the include path, no PCH)
+    sf_hdr = os.path.join(run.wd, "sf_surface", "inc")
+    ok_sf, err_sf = msf(["--units"] + list(units_h) + ["--constants"] + list(consts_h), os.path.join(sf_hdr, "au.hh"))
+    if not ok_sf:
+        run.violation("C20:single-file:generator-failed:surface", "make-single-file fails for the full selection: %s" % err_sf)
+    sf_cfgs = list(core.CORNERS if quick else all_cfgs) if ok_sf else []
+    bjobs += [(cfg, "V0", ("single-file",)) for cfg in sf_cfgs]
+    core.warm_pch([c for c, v, fl in bjobs if fl == ("-O2",)], ["-O2"])
+
+    def runjob(job):
+        cfg, v, fl = job
+        if run.time_left() < 200:
+            return job, None, {}, "deadline"
+        fs = prog20 if v == "S20" else progs[v]
+        wd = os.path.join(run.wd, "surfrun_" + cfg.name)
+        stem = "surface_%s%s" % (v, "".join(fl).replace("-", "_"))
+        if fl == ("single-file",):
+            hp = '#include <cstdio>\n#include <cstdint>\n#include <chrono>\n#include <string>\n#include <limits>\n#include "au.hh"\n' + pre
+            o, bad, err = build_funcs(cfg, wd, stem, hp, [(n, b) for n, b, _ in fs], (), ["-I" + sf_hdr])
+        else:
+            o, bad, err = build_funcs(cfg, wd, stem, pre, [(n, b) for n, b, _ in fs], fl)
+        return job, o, bad, err
+    results = {}
+    for job, o, bad, err in core.pmap(runjob, bjobs):
+        results[job] = (o, bad, err)
+    skipped = [j for j, (o, bad, err) in results.items() if err == "deadline"]
+    n_lines = 0
+
+    def lines_of(job):
+        o = results[job][0]
+        fs = prog20 if job[1] == "S20" else progs[job[1]]
+        out = {}
+        if o is None:
+            return out
+        for line in o.split("\n"):
+            if line:
+                out.setdefault(line.split(" ")[0], []).append(line)
+        return out
+    groups = {}
+    for job in bjobs:
+        if job not in skipped:
+            groups.setdefault(job[1], []).append(job)
+    for v, js in sorted(groups.items()):
+        fs = prog20 if v == "S20" else progs[v]
+        fmeta = {n: m for n, b, m in fs}
+        # build problems: a statement that every configuration accepts alone but that does not link / build under some of them
+        ok_jobs = [j for j in js if results[j][0] is not None]
+        for j in js:
+            o, bad, err = results[j]
+            cfgname = j[0].name + "".join(j[2])
+            for fn, syms in sorted(bad.items()):
+                name, rep, vn = fmeta[fn]
+                key = "C20:build-differs:%s:%s/%s:%s" % (cfgname, name, rep, norm_sym(syms[0]))
+                run.violation(key, "statement `%s` (rep %s) is accepted alone by all six configurations and links under %s, but under %s the program has "
+                              "undefined references: %s" % (name, rep, sorted(x[0].name for x in ok_jobs if not results[x][1].get(fn))[:4] or "no configuration", cfgname, syms[:3]),
+                              run.write_replay(key, {"kind": "surface-build", "config": str(j[0]), "flags": list(j[2]), "code": dict((n, b) for n, b, _ in fs)[fn], "diag": syms[:3]}))
+            if o is None:
+                if not ok_jobs:
+                    raise core.InfraError("surface program %s builds under no configuration although every statement was accepted alone: %s" % (v, err[-1500:]))
+                key = "C20:build-differs:%s:%s:%s" % (cfgname, v, re.sub(r"^.*?error:\s*", "", core._first_error(err) or "?")[:80])
+                run.violation(key, "the API-surface program %s (every statement accepted alone by all six configurations) builds under %s but not under %s: %s"
+                              % (v, sorted(x[0].name for x in ok_jobs), cfgname, core._first_error(err) or err[-300:]),
+                              run.write_replay(key, {"kind": "surface-build", "config": str(j[0]), "flags": list(j[2]), "diag": err[-2000:]}))
+        if not ok_jobs:
             continue
-        done += 1
-        evals += 1
-        for kind, detail in probs:
-            key = "C20:single-file:%s:%s" % (kind, job[1])
-            run.violation(key, "%s: selection %s: %s: %s" % (job[0], job[1], kind, detail),
-                          run.write_replay(key, {"kind": "selection", "units": job[2], "constants": job[3], "io": job[4], "config": str(job[0])}))
-    n_sel = done
-    # ---------------- (b) every header stands alone; every _fwd header matches its definition
+        ref = ok_jobs[0]
+        ref_lines = lines_of(ref)
+        n_lines += sum(len(x) for x in ref_lines.values())
+        for j in ok_jobs[1:]:
+            ls = lines_of(j)
+            evals += sum(len(x) for x in ls.values())
+            for tag in sorted(set(ref_lines) | set(ls)):
+                if ref_lines.get(tag) != ls.get(tag):
+                    if tag not in ls or tag not in ref_lines:
+                        # statement removed from one build because it did not link there: reported above
+                        continue
+                    key = "C20:output-differs:%s" % tag
+                    fl_r, fl_o = "".join(ref[2]), "".join(j[2])
+                    run.violation(key, "API-surface output differs between %s%s (%r) and %s%s (%r)" % (ref[0].name, fl_r, ref_lines[tag], j[0].name, fl_o, ls[tag]),
+                                  run.write_replay(key, {"kind": "surface", "tag": tag, "ref": str(ref[0]), "ref_flags": list(ref[2]), "other": str(j[0]),
+                                                         "other_flags": list(j[2]), "ref_line": ref_lines[tag], "other_line": ls[tag]}))
+        # constexpr twins against the run-time line of the same configuration; <=> against the relational operators
+        for j in ok_jobs:
+            ls = lines_of(j)
+            for tag, val in ls.items():
+                if tag.endswith("/cx"):
+                    rt = ls.get(tag[:-3])
+                    if rt is not None and [x.split(" ", 1)[1] for x in rt] != [x.split(" ", 1)[1] for x in val]:
+                        if tag.split("/")[1] in core.F3:
+                            info["constexpr_vs_runtime_fp_differences"] = info.get("constexpr_vs_runtime_fp_differences", 0) + 1
+                            continue
+                        key = "C20:constexpr-differs:%s:%s" % (tag, j[0].name)
+                        run.violation(key, "%s: statement %s evaluates to %r in a constant expression and to %r at run time" % (j[0], tag, val, rt),
+                                      run.write_replay(key, {"kind": "surface", "tag": tag, "ref": str(j[0]), "ref_flags": list(j[2]), "other": str(j[0]),
+                                                             "other_flags": list(j[2]), "ref_line": rt, "other_line": val}))
+                    info["constexpr_twins_compared"] = info.get("constexpr_twins_compared", 0) + 1
+                for line in val:
+                    mm = re.search(r" spaceship (\d{3}) relational (\d{3})$", line)
+                    if mm:
+                        info["spaceship_lines"] = info.get("spaceship_lines", 0) + 1
+                        if mm.group(1) != mm.group(2):
+                            key = "C20:spaceship-inconsistent:%s:%s" % (tag, j[0].name)
+                            run.violation(key, "%s: operator<=> disagrees with < == > (standard containers compare through <=> under C++20 and through < under "
+                                          "C++14/17): %s" % (j[0], line))
+    mark("c_programs")
+    # ---- odr-uses of static data members: link verdict per statement must be alike
+    odr_funcs = []
+    for rep in ODR_REPS:
+        for name, stmt in ODR_STMTS:
+            odr_funcs.append(("o%d" % len(odr_funcs), stmt_body(rep, name, stmt), (name, rep)))
+    ometa = {n: m for n, b, m in odr_funcs}
+
+    def odrjob(cfg):
+        return cfg, build_funcs(cfg, os.path.join(run.wd, "odr_" + cfg.name), "odr", pre, [(n, b) for n, b, _ in odr_funcs])
+    odr = dict(core.pmap(odrjob, all_cfgs))
+    if all(o is None for o, bad, err in odr.values()):
+        raise core.InfraError("the odr-use program builds under no configuration: %s" % list(odr.values())[0][2][-1200:])
+    n_odr_alike = 0
+    for fn, (name, rep) in sorted(ometa.items(), key=lambda kv: int(kv[0][1:])):
+        link = {c.name: (odr[c][0] is not None and fn not in odr[c][1]) for c in all_cfgs}
+        evals += len(link)
+        if len(set(link.values())) == 1:
+            n_odr_alike += 1
+            continue
+        for c in all_cfgs:
+            if not link[c.name]:
+                syms = odr[c][1].get(fn) or [core._first_error(odr[c][2]) or "?"]
+                key = "C20:odr-link-differs:%s/%s:%s" % (name, rep, c.name)
+                run.violation(key, "`%s` (rep %s) compiles under all six configurations and links under %s, but under %s: undefined reference to %s" % (
+                    dict(ODR_STMTS)[name], rep, sorted(k for k, v in link.items() if v), c.name, syms[:2]),
+                    run.write_replay(key, {"kind": "odr", "config": str(c), "code": dict((n, b) for n, b, _ in odr_funcs)[fn]}))
+    oks = [c for c in all_cfgs if odr[c][0] is not None]
+    for c in oks[1:]:
+        la = {l.split(" ")[0]: l for l in odr[oks[0]][0].split("\n") if l}
+        lb = {l.split(" ")[0]: l for l in odr[c][0].split("\n") if l}
+        for tag in sorted(set(la) & set(lb)):
+            if la[tag] != lb[tag]:
+                run.violation("C20:output-differs:%s" % tag, "odr-use output differs between %s (%r) and %s (%r)" % (oks[0].name, la[tag], c.name, lb[tag]))
+    n_stmt = len(probes)
+    mark("c_odr")
+    # ---------------- (b) every header stands alone; every forward declaration matches a definition
     hdrs = []
     root = os.path.join(core.AU_INC, "au")
     for d, dirs, files in os.walk(root):
@@ -214,29 +621,69 @@ def check(run):
         for f in sorted(files):
             if f.endswith(".hh") and not f.endswith("_test.hh") and "testing" not in f and "fwd_test" not in f and "chrono_policy_validation" not in f:
                 hdrs.append(os.path.relpath(os.path.join(d, f), core.AU_INC))
-    cfgs = core.CORNERS if tier == "quick" else core.CFG6
+    cfgs = core.CORNERS if quick else core.CFG6
     hwd = os.path.join(run.wd, "hdr")
     os.makedirs(hwd, exist_ok=True)
     hjobs = []
+    fwd_args = {"Pow": "<VfU, 2>", "RatioPow": "<VfU, 1, 2>", "Dimension": "<>", "Magnitude": "<>", "QuantityMaker": "<VfU>", "SingularNameFor": "<VfU>",
+                "QuantityPointMaker": "<VfU>", "Quantity": "<VfU, int>", "UnitProduct": "<>", "CorrespondingQuantity": "<int>", "QuantityPoint": "<VfU, int>",
+                "Constant": "<VfU>", "SymbolFor": "<VfU>", "PrefixApplier": "<au::Kilo>"}
+    n_fwd_names = n_fwd_unknown = n_inst = 0
     for h in hdrs:
         tag = re.sub(r"\W", "_", h)
         src = os.path.join(hwd, tag + ".cc")
-        open(src, "w").write('#include "%s"\n#include "%s"\nint main() { return 0; }\n' % (h, h))
+        stem = os.path.basename(h)[:-3]
+        use = ""
+        # one instantiating use of what the header defines, with no other Au header included
+        if h.startswith("au/units/") and not h.endswith("_fwd.hh") and stem in model.LIB_BY_STEM:
+            mk = model.LIB_BY_STEM[stem].maker
+            use = "  { auto q = %s(1); (void)au::unit_label(q.unit); (void)(q + q); (void)(q < q); (void)q.in(%s); (void)(q * q); }\n" % (mk, mk)
+        elif h.startswith("au/constants/") and not h.endswith("_fwd.hh"):
+            use = "  { (void)au::unit_label(au::%s); auto q = au::%s.as<double>(); (void)(q + q); }\n" % (stem.upper(), stem.upper())
+        n_inst += bool(use)
+        open(src, "w").write('#include "%s"\n#include "%s"\nint main() {\n%s  return 0; }\n' % (h, h, use))
         for cfg in cfgs:
             hjobs.append((cfg, h, src, "standalone"))
         if h.endswith("_fwd.hh") or h == "au/fwd.hh":
             full = h.replace("_fwd.hh", ".hh") if h != "au/fwd.hh" else "au/au.hh"
-            names, prev = [], ""
+            names, prev = [], ""   # (name, template-argument list or "")
             for line in open(os.path.join(core.AU_INC, h)).read().split("\n"):
-                mm = re.match(r"^struct (\w+);", line)
-                if mm and not prev.strip().startswith("template") and not prev.strip().endswith(">"):
-                    names.append(mm.group(1))
+                mm = re.match(r"^(?:struct|class) (\w+);", line)
+                if mm:
+                    is_t = prev.strip().startswith("template") or prev.strip().endswith(">")
+                    nm = mm.group(1)
+                    if not is_t:
+                        names.append((nm, ""))
+                    elif nm in fwd_args:
+                        names.append((nm, fwd_args[nm]))
+                    else:
+                        # argument list synthesised from the template header: type -> VfU, non-type -> 1, pack -> empty, template -> Kilo
+                        args = []
+                        hdr_m = re.search(r"template\s*<(.*)>\s*$", prev.strip())
+                        depth, cur, parts = 0, "", []
+                        for ch in (hdr_m.group(1) if hdr_m else ""):
+                            if ch == "," and depth == 0:
+                                parts.append(cur)
+                                cur = ""
+                                continue
+                            depth += ch == "<"
+                            depth -= ch == ">"
+                            cur += ch
+                        parts.append(cur)
+                        for prm in [x.strip() for x in parts if x.strip()]:
+                            if "..." in prm:
+                                continue
+                            args.append("au::Kilo" if prm.startswith("template") else ("VfU" if re.match(r"(typename|class)\b", prm) else "1"))
+                        names.append((nm, "<%s>" % ", ".join(args)))
+                        n_fwd_unknown += 1
                 if line.strip():
                     prev = line
+            n_fwd_names += len(names)
             src2 = os.path.join(hwd, tag + "_then_def.cc")
-            uses = "".join("au::%s *p_%s = nullptr;\n" % (n, n) for n in names)
-            open(src2, "w").write('#include "%s"\n%s#include "%s"\n%sint main() { return 0; }\n' % (
-                h, uses, full, "".join("static_assert(sizeof(au::%s) > 0, \"\");\n" % n for n in names)))
+            uses = "struct VfU;\n" + "".join("au::%s%s *p_%s = nullptr;\n" % (n, a, n) for n, a in names)
+            vfu = "struct VfU : au::UnitImpl<au::Length> {};\n" if h == "au/fwd.hh" else ""
+            open(src2, "w").write('#include "%s"\n%s#include "%s"\n%s%sint main() { return 0; }\n' % (
+                h, uses, full, vfu, "".join("static_assert(sizeof(au::%s%s) > 0, \"\");\n" % (n, a) for n, a in names)))
             for cfg in cfgs:
                 hjobs.append((cfg, h, src2, "fwd-matches-definition"))
 
@@ -250,120 +697,144 @@ def check(run):
             key = "C20:header:%s:%s:%s" % (kind, h, cfg.name)
             run.violation(key, "%s: header %s fails '%s': %s" % (cfg, h, kind, core._first_error(e)),
                           run.write_replay(key, {"kind": "header", "header": h, "check": kind, "config": str(cfg), "source": open(src).read()}))
-    # ---------------- (c) cross-configuration differential of an API-surface family
-    reps = R11
-    probes = []
-    for rep in reps:
-        for name, stmt in SURFACE_STMTS:
-            probes.append(core.Probe((name, rep), stmt_body(rep, name, stmt), "accept", {"dedup": None}))
-    pre = '#include <sstream>\n' + SURFACE_PRE
-    verdicts = {}
-    all_cfgs = core.CFG6
-    for cfg in all_cfgs:
-        pl = [p for p in probes if p.pid[0] != "spaceship" or cfg.std == "c++20"]
-        res, _ = core.run_probes(cfg, pl, os.path.join(run.wd, "surf_" + cfg.name), "c20s", pre, batch=24)
-        verdicts[cfg.name] = {p.pid: res[p.pid][0] for p in pl}
-        evals += len(pl)
-    common = []
-    n_acc = n_rej = 0
-    for p in probes:
-        vs = {c.name: verdicts[c.name].get(p.pid) for c in all_cfgs if p.pid in verdicts[c.name]}
-        if len(set(vs.values())) > 1:
-            key = "C20:accept-differs:%s:%s" % p.pid
-            run.violation(key, "statement `%s` with rep %s is accepted/rejected differently: %s" % (p.pid[0], p.pid[1], vs),
-                          run.write_replay(key, {"kind": "program", "code": p.code, "verdicts": vs}))
-        elif list(vs.values())[0] == "accept":
-            n_acc += 1
-            if p.pid[0] != "spaceship":
-                common.append(p)
-        else:
-            n_rej += 1
-    outs = {}
+    mark("b_headers")
+    # ---------------- (a) single-file packaging
+    sels = [("empty", [], [])] + [("u-" + u, [u], []) for u in units_h] + [("c-" + c, [], [c]) for c in consts_h] + [("all", list(units_h), list(consts_h))]
+    jobs = []   # (cfg, id, units, consts, io, deep, raw_args)
+    for sid, us, cs in sels:
+        for io in (True, False):
+            # every selection is built, linked from two TUs and run with io; without io only empty/all (thorough: all)
+            deep = io or sid in ("empty", "all") or not quick
+            jobs.append((core.GXX14, "%s-%s" % (sid, "io" if io else "noio"), us, cs, io, deep, None))
+    for cfg in core.CFG6:   # the full selection under every configuration
+        for io in (True, False):
+            if cfg is core.GXX14:
+                continue
+            jobs.append((cfg, "all-%s-%s" % ("io" if io else "noio", cfg.name), list(units_h), list(consts_h), io, io or not quick, None))
+    jobs.append((core.GXX14, "allflags-io", list(units_h), list(consts_h), True, True, ["--all-units", "--all-constants"]))
+    jobs.append((core.CLANG20, "allflags-noio", list(units_h), list(consts_h), False, True, ["--all-units", "--all-constants"]))
+    jobs.append((core.CLANG14, "empty-noio-clang14", [], [], False, True, None))
+    for k, (sid, us, cs) in enumerate(structured_subsets(units_h, consts_h, quick)):
+        jobs.append(((core.GXX14, core.CLANG20)[k % 2] if not quick else core.GXX14, "%s-%s" % (sid, "io" if k % 2 == 0 else "noio"), us, cs, k % 2 == 0,
+                     k % (3 if quick else 4) == 0, None))
+    if not quick:
+        for u1, u2 in itertools.combinations(units_h + ["C:" + c for c in consts_h], 2):
+            us = [x for x in (u1, u2) if not x.startswith("C:")]
+            cs = [x[2:] for x in (u1, u2) if x.startswith("C:")]
+            jobs.append((core.GXX14, "p-%s-%s" % (u1.replace(":", ""), u2.replace(":", "")), us, cs, (len(u1) + len(u2)) % 2 == 0, False, None))
+        for k, u in enumerate(units_h):
+            jobs.append((core.GXX14, "allbut-" + u, [x for x in units_h if x != u], list(consts_h), True, k % 6 == 0, None))
+    done = 0
 
-    def runcfg(cfg):
-        wd = os.path.join(run.wd, "surfrun_" + cfg.name)
-        os.makedirs(wd, exist_ok=True)
-        src = os.path.join(wd, "surface.cc")
-        lines = [pre] + ["static void s%d() { %s }" % (i, p.code) for i, p in enumerate(common)] + ["int main() {"] + ["  s%d();" % i for i in range(len(common))] + ["  return 0; }"]
-        open(src, "w").write("\n".join(lines) + "\n")
-        exe = os.path.join(wd, "surface")
-        rc, err = core.build_exe(cfg, src, exe, [])
-        if rc != 0:
-            return cfg.name, None, err
-        rc, o, e = core.sh([exe], timeout=120)
-        if rc != 0:
-            raise core.InfraError("surface program failed under %s" % cfg)
-        return cfg.name, o, ""
-    build_fail = {}
-    for name, o, err in core.pmap(runcfg, all_cfgs):
-        if o is None:
-            build_fail[name] = err
-        else:
-            outs[name] = o
-    if build_fail and not outs:
-        raise core.InfraError("surface program builds under no configuration although every statement was accepted alone: %s" % list(build_fail.values())[0][-1500:])
-    for name, err in build_fail.items():
-        # accepted statement by statement (syntax-only) under every configuration, builds and runs under some, but does
-        # not build/link under this one: the same program behaves differently across standards/compilers
-        und = sorted(set(re.findall(r"undefined reference to `([^']+)'", err)))[:3]
-        key = "C20:build-differs:%s:%s" % (name, (und[0][:80] if und else (core._first_error(err) or "?")[:80]))
-        run.violation(key, "the API-surface program (every statement accepted alone by all six configurations) builds under %s but not under %s: %s"
-                      % (sorted(outs), name, und or core._first_error(err) or err[-300:]),
-                      run.write_replay(key, {"kind": "surface-build", "config": name, "diag": err[-2000:]}))
-    ref = [c.name for c in all_cfgs if c.name in outs][0]
-    ref_lines = outs[ref].split("\n")
-    for c in all_cfgs:
-        if c.name == ref or c.name not in outs:
+    def do(job):
+        if run.time_left() < 90:
+            return job, None
+        return job, check_selection(run, job[0], job[1], job[2], job[3], job[4], job[5], job[6])
+    n_deep = 0
+    for job, probs in core.pmap(do, jobs):
+        if probs is None:
             continue
-        ls = outs[c.name].split("\n")
-        evals += len(ls)
-        if ls != ref_lines:
-            for i, (x, y) in enumerate(zip(ref_lines, ls)):
-                if x != y:
-                    key = "C20:output-differs:%s" % x.split(" ")[0]
-                    run.violation(key, "API-surface output differs between %s (%r) and %s (%r)" % (ref, x, c.name, y),
-                                  run.write_replay(key, {"kind": "surface", "ref": ref, "other": c.name, "ref_line": x, "other_line": y}))
-            if len(ls) != len(ref_lines):
-                run.violation("C20:output-length:%s" % c.name, "API-surface output has %d lines under %s and %d under %s" % (len(ref_lines), ref, len(ls), c.name))
+        done += 1
+        evals += 1
+        n_deep += bool(job[5])
+        for kind, detail in probs:
+            key = "C20:single-file:%s:%s" % (kind, job[1])
+            run.violation(key, "%s: selection %s: %s: %s" % (job[0], job[1], kind, detail),
+                          run.write_replay(key, {"kind": "selection", "units": job[2], "constants": job[3], "io": job[4], "config": str(job[0]), "raw_args": job[6]}))
+    n_sel = done
+    mark("a_selections")
     run.cov.update({
-        "evaluations": evals, "programs": evals, "selections_checked": n_sel, "selections_planned": len(jobs), "headers": len(hdrs), "header_compiles": len(hjobs),
-        "surface_statements": len(probes), "surface_accepted_everywhere": n_acc, "surface_rejected_everywhere": n_rej, "surface_output_lines": len(ref_lines),
+        "phase": phase,
+        "evaluations": evals, "programs": evals, "selections_checked": n_sel, "selections_planned": len(jobs), "selections_built_linked_run": n_deep,
+        "headers": len(hdrs), "header_compiles": len(hjobs), "headers_with_instantiating_use": n_inst, "fwd_names_checked": n_fwd_names,
+        "fwd_template_names_with_synthesised_arguments": n_fwd_unknown,
+        "surface_statements": n_stmt, "surface_accepted_everywhere": n_acc, "surface_rejected_everywhere": n_rej, "surface_output_lines": n_lines,
+        "constexpr_twins": len(twins), "constexpr_twins_accepted_everywhere": n_cx_acc, "constexpr_twins_rejected_everywhere": n_cx_rej,
+        "accept_differs_by_constexpr_budget_only": n_budget, "surface_programs_built": len(bjobs) - len(skipped), "surface_programs_skipped_deadline": len(skipped),
+        "value_sets": vsets, "odr_statements": len(odr_funcs), "odr_statements_linking_alike": n_odr_alike, "info": info,
         "distinct_nontrivial": min(n_acc, n_rej) + n_sel,
-        "rule": "(a) single-file header for every selection of <=1 unit/constant header and the full selection x {io,noio} (thorough: all pairs and all-but-one): must compile alone, "
-                "twice, from two linked TUs and print the same as the multi-header tree; (b) every non-test header compiled stand-alone twice, each *_fwd.hh followed by its "
-                "definition with a use of each declared name; (c) 43 API statements x 11 reps: accept/reject vector and run-time output identical across g++/clang++ x C++14/17/20. "
-                "distinct_nontrivial = min(#statements accepted everywhere, #rejected everywhere) + #selections checked.",
-        "configs": [str(c) for c in all_cfgs], "exhaustive": n_sel == len(jobs),
-        "exhaustive_note": "header selections at Hamming distance <=1 from empty (thorough: <=2, and <=1 from full) enumerated; 2^66 selections are not enumerable",
+        "rule": "(a) single-file header for every selection of <=1 unit/constant header, the full selection (explicit list and --all-units/--all-constants), "
+                "arithmetic-progression subsets (stride, offset) of the 66 headers in sorted/reversed/rotated insertion order (thorough: also all pairs and "
+                "all-but-one) x {io,noio}: must compile alone and twice; 'built, linked, run' selections are linked from two TUs that odr-use the same labels and "
+                "must print the same as the same two TUs built against the multi-header tree; the full selection under all six configurations; the V0 "
+                "API-surface program is also built against the generated full header; (b) every non-test header compiled stand-alone twice (unit and constant "
+                "headers with one instantiating use of their maker / constant), each *fwd.hh followed by its definition with a use and a completeness check of "
+                "each declared name (template names through an argument table); (c) %d API statements x 11 reps: accept/reject vector identical across "
+                "g++/clang++ x C++14/17/20; run-time output identical over the enumerated value sets %s (negative values on signed/floating reps only, "
+                "fractional on floating only); constexpr twins of %d pure statements (accepted alike; value equal to the run-time line for integral reps); "
+                "V0 at -O2 against -O0; %d odr-uses of static data members x 2 reps must link alike; operator<=> statements run under the two C++20 "
+                "configurations and must agree with < == >. distinct_nontrivial = min(#statements accepted everywhere, #rejected everywhere) + #selections checked."
+                % (len(SURFACE_STMTS), vsets, len(CONSTEXPR_OK), len(ODR_STMTS)),
+        "configs": [str(c) for c in all_cfgs], "exhaustive": n_sel == len(jobs) and not skipped,
+        "exhaustive_note": "header selections at Hamming distance <=1 from empty (thorough: <=2, and <=1 from full) and the stated arithmetic-progression subsets "
+                           "enumerated; 2^66 selections are not enumerable",
         "samples": [{"selection": j[1]} for j in jobs[:: max(1, len(jobs) // 5)]][:5] + [{"statement": p.pid[0], "rep": p.pid[1]} for p in probes[::97]][:4],
     })
-    run.assumptions += ["differential oracle only: no hand-written expected values; identical behaviour across packaging / standard / compiler is what is demanded"]
+    run.assumptions += ["differential oracle only: no hand-written expected values; identical behaviour across packaging / standard / compiler is what is demanded",
+                        "value sets avoid inputs on which the raw C++ arithmetic of a statement would be undefined (signed overflow in 32/64-bit reps, float->int out of "
+                        "range, NaN): differences there would be the program's, not the library's",
+                        "a rejection whose diagnostic names the constant-evaluation budget of one compiler (-fconstexpr-ops-limit / -fconstexpr-steps) is an allowed "
+                        "difference and only counted",
+                        "constexpr-vs-run-time differences on floating reps are counted, not judged (both are compared across configurations)"]
+
+
+def _cfg(s):
+    return [c for c in core.CFG6 if str(c) == s][0]
 
 
 def replay(path):
     import json
     r = json.load(open(path))
     print(json.dumps(r, indent=1)[:3000])
-    if r.get("kind") == "header":
-        cfg = [c for c in core.CFG6 if str(c) == r.get("config")][0]
-        wd = os.path.join(core.BUILD, "C20", "replay")
-        os.makedirs(wd, exist_ok=True)
+    wd = os.path.join(core.BUILD, "C20", "replay")
+    os.makedirs(wd, exist_ok=True)
+    pre = '#include <sstream>\n' + SURFACE_PRE
+    hit = False
+    kind = r.get("kind")
+    if kind == "header":
         src = os.path.join(wd, "h.cc")
         open(src, "w").write(r["source"])
-        rc, e = cc(cfg, ["-fsyntax-only", "-I" + core.AU_INC, src])
-        if rc != 0:
-            print("VIOLATION property=C20 replay=%s" % path)
-            return 1
-        return 0
-    if r.get("kind") == "selection":
-        run = core.Run("C20", "quick", LEVEL)
-        run.wd = os.path.join(core.BUILD, "C20", "replay")
-        cfg = [c for c in core.CFG6 if str(c) == r.get("config")][0]
-        probs = check_selection(run, cfg, "replay", r["units"], r["constants"], r["io"], True)
+        rc, e = cc(_cfg(r["config"]), ["-fsyntax-only", "-I" + core.AU_INC, src])
+        hit = rc != 0
+    elif kind == "selection":
+        run = core.Run.__new__(core.Run)
+        run.wd = wd
+        probs = check_selection(run, _cfg(r["config"]), "replay", r["units"], r["constants"], r["io"], True, r.get("raw_args"))
         print(probs)
-        if probs:
-            print("VIOLATION property=C20 replay=%s" % path)
-            return 1
-        return 0
-    print("re-run: bin/check C20 --tier quick")
+        hit = bool(probs)
+    elif kind == "program":
+        vs = {}
+        for c in core.CFG6:
+            if "<=>" in r["code"] or "PS(" in r["code"]:
+                if c.std != "c++20":
+                    continue
+            res, _ = core.run_probes(c, [core.Probe(0, r["code"], "accept")], wd, "rp", pre)
+            vs[c.name] = res[0][0]
+        print(vs)
+        hit = len(set(vs.values())) > 1
+    elif kind in ("surface-build", "odr") and r.get("code"):
+        o, bad, err = build_funcs(_cfg(r["config"]), wd, "rp", pre, [("s0", r["code"])], tuple(r.get("flags", [])))
+        print(bad, err[-500:])
+        hit = o is None or bool(bad)
+    elif kind == "surface" and r.get("tag"):
+        parts = r["tag"].split("/")
+        name, rep, vn = parts[0], parts[1], parts[2]
+        cx = len(parts) > 3
+        outs = []
+        for cs, fl in ((r["ref"], r.get("ref_flags", [])), (r["other"], r.get("other_flags", []))):
+            body = [stmt_body(rep, name, dict(SURFACE_STMTS)[name], vn)] + ([stmt_body(rep, name, dict(SURFACE_STMTS)[name], vn, cx=True)] if cx else [])
+            fl = [f for f in fl if f != "single-file"]
+            o, bad, err = build_funcs(_cfg(cs), wd, "rp", pre, [("s%d" % i, b) for i, b in enumerate(body)], tuple(fl))
+            outs.append(o)
+        print(outs)
+        if cx and r["ref"] == r["other"]:
+            ls = [l.split(" ", 1)[1] for l in (outs[0] or "").split("\n") if l]
+            hit = len(ls) == 2 and ls[0] != ls[1]
+        else:
+            hit = outs[0] != outs[1]
+    else:
+        print("re-run: bin/check C20 --tier quick")
+    if hit:
+        print("VIOLATION property=C20 replay=%s" % path)
+        return 1
     return 0
